@@ -146,7 +146,8 @@ def classify(spec, kind: str, rec) -> str:
             return "signed_query_reencoded_by_transport"
     # known mechanism: a sequence-valued keyword argument is transmitted as repeated form fields but signed as the
     # repr() of the sequence
-    if kind == "signature_mismatch" and any(isinstance(v, (list, tuple)) for v in spec["args"].get("kwargs", {}).values()):
+    if kind == "signature_mismatch" and rec is not None and any(
+            isinstance(v, (list, tuple)) and (k + "=").encode() in rec.body for k, v in spec["args"].get("kwargs", {}).items()):
         return "sequence_argument_signed_as_repr"
     return ""
 
